@@ -165,6 +165,13 @@ EXPR = {
     'pump_over_net': lambda s: _v(s, 'wellbores.PumpingPower')[0] / _v(s, 'surfaceplant.NetElectricityProduced')[0] * 100,
 }
 
+# `:10.4g` lines (Python's general format, rendered by the Lean model `fmtG` in its fixed-notation range)
+G_SPEC = {'Geothermal gradient': ('reserv.gradient', 0)}
+SEG_G = re.compile(r'^Segment (\d+) Geothermal gradient$')
+
+# S-DAC-GT profile: one row per year, `,.2f` figures (thousands separators) except the last column
+SDAC_COLS = [('CarbonExtractedAnnually', 2), ('S_DAC_GTCummCarbonExtracted', 2), ('S_DAC_GTAnnualCost', 2), ('S_DAC_GTCummCashFlow', 2), ('CummCostPerTonne', 2)]
+
 # production profile: end-use family -> (first year number, [(series, scale, decimals, kind)]); kind 'ratio0' = series[i*n] / series[0]
 PT, PP = 'wellbores.ProducedTemperature', 'wellbores.PumpingPower'
 PROD_TABLE = {
@@ -229,9 +236,14 @@ def _run(params):
 
 def section_tables(lines):
     """rows of the three profile tables: lists of token lists"""
-    out = {'prod': [], 'annual': [], 'cash': []}
+    out = {'prod': [], 'annual': [], 'cash': [], 'sdac': [], 'prod_header_units': None}
     cur = None
     for ln in lines:
+        if 'S-DAC-GT PROFILE' in ln:
+            cur = 'sdac'
+            continue
+        if cur == 'prod' and not out['prod'] and out['prod_header_units'] is None and ln.strip().startswith('(') and ')' in ln:
+            out['prod_header_units'] = re.findall(r'\(([^)]*)\)', ln)
         if 'ANNUAL' in ln and 'PROFILE' in ln:
             cur = 'annual'
             continue
@@ -247,7 +259,7 @@ def section_tables(lines):
         if cur is None:
             continue
         toks = ln.replace('|', ' ').split()
-        if toks and re.fullmatch(r'-?\d+', toks[0]) and all(re.fullmatch(r'-?[\d.]+(?:[eE][+-]?\d+)?|nan|inf|-inf', t) for t in toks[1:]) and len(toks) > 2:
+        if toks and re.fullmatch(r'-?\d+', toks[0]) and all(re.fullmatch(r'-?[\d.,]+(?:[eE][+-]?\d+)?|nan|inf|-inf', t) for t in toks[1:]) and len(toks) > 2:
             out[cur].append(toks)
     return out
 
@@ -266,6 +278,16 @@ def check_report(chk: core.Check, name, params, r, lines_out, pending):
         if not m:
             continue
         label = ' '.join(m['label'].split())
+        gm = SEG_G.match(label)
+        if label in G_SPEC or gm:
+            idx = G_SPEC[label][1] if label in G_SPEC else int(gm.group(1)) - 1
+            pg = get(snap, 'reserv.gradient')
+            vals = values_of(pg) if pg else None
+            if vals and idx < len(vals) and math.isfinite(vals[idx]) and m['num'] != 'N/A':
+                cid = f'f{len(pending)}'
+                lines_out.append(f'figureg {cid} p=4 x={core.frac(vals[idx])}')
+                pending.append(('gline', name, rep, label, ln, m['num'], (m['unit'] or '').strip(), pg['CurrentUnits'], 4, [vals[idx]], 'scalar', 1))
+            continue
         spec = SPEC.get(label)
         if spec is None:
             seen_unspecified.add(label)
@@ -390,6 +412,34 @@ def check_report(chk: core.Check, name, params, r, lines_out, pending):
                 cid = f'f{len(pending)}'
                 lines_out.append(f'figure {cid} agg=scalar scale=1 d=2 xs={core.frac(x)}')
                 pending.append(('cell', name, rep, f'cashflow-profile/{c}', ' '.join(toks), toks[j + 1], None, None, 2, [x], 'scalar', 1))
+    # ---- production-profile header: the units in parentheses are the units of the columns (electricity branch prints the live units) ------
+    if fam == 'electricity' and tabs['prod_header_units'] is not None:
+        want_units = [get(snap, 'wellbores.ProducedTemperature')['CurrentUnits'], get(snap, 'wellbores.PumpingPower')['CurrentUnits'],
+                      get(snap, 'surfaceplant.NetElectricityProduced')['CurrentUnits'], '%']
+        chk.case(('production-profile/header-units', name), True)
+        if tabs['prod_header_units'] != want_units:
+            chk.fail('C09/unit/production-profile-header', f'the production profile header gives the column units as {tabs["prod_header_units"]} but the columns hold {want_units}', rep)
+        else:
+            chk.tag('unit/table-header-equal')
+    # ---- S-DAC-GT profile ------------------------------------------------------------------------------------------------------------------
+    sd = snap.get('sdacgteconomics', {}).get('p') if snap.get('economics', {}).get('p', {}).get('DoSDACGTCalculations', {}).get('value') else None
+    if sd:
+        rows = tabs['sdac']
+        chk.case(('sdac-profile/rows', name), True)
+        if len(rows) != L:
+            chk.fail('C09/table-rows/sdacgt-profile', f'the S-DAC-GT profile has {len(rows)} rows for a lifetime of {L} years', rep)
+        else:
+            for i, toks in enumerate(rows):
+                if int(toks[0]) != i + 1 or len(toks) - 1 != len(SDAC_COLS):
+                    chk.fail('C09/table-years/sdacgt-profile', f'S-DAC-GT profile row {i} is labelled year {toks[0]} / has {len(toks) - 1} figures', {**rep, 'row': toks})
+                    break
+                for j, (attr, d) in enumerate(SDAC_COLS):
+                    sv = values_of(sd[attr]) if attr in sd else None
+                    if not sv or i >= len(sv) or not math.isfinite(sv[i]):
+                        continue
+                    cid = f'f{len(pending)}'
+                    lines_out.append(f'figure {cid} agg=scalar scale=1 d={d} xs={core.frac(sv[i])}')
+                    pending.append(('cell', name, rep, f'sdacgt-profile/{attr}', ' '.join(toks), toks[j + 1], None, None, d, [sv[i]], 'scalar', 1))
     return seen_unspecified
 
 
@@ -421,6 +471,9 @@ def evaluate(chk: core.Check, cases):
     out = chk.driver(lines_out)
     for k, (kind, name, rep, label, ln, shown, shown_unit, want_unit, d, xs, agg, scale) in enumerate(pending):
         head, kv = core.parse_kv(out.get(f'f{k}', 'missing'))
+        if head == 'ok' and kv.get('tag') == 'scientific':
+            chk.tag('figure/g-format-scientific-range-skipped')
+            continue
         if head != 'ok' or kv.get('tag') != 'fig':
             chk.broken('C09/driver', f'figure: {out.get(f"f{k}")}', {**rep, 'label': label}, 'correspondence-break')
             continue
@@ -436,12 +489,25 @@ def evaluate(chk: core.Check, cases):
                          {**rep, 'line': ln, 'shown': shown, 'expected': want, 'exact_value': kv['exact'], 'quantity': SPEC[label][0] if label in SPEC else label})
                 continue
         else:
-            chk.tag('figure/' + ('line-equal' if kind == 'line' else 'cell-equal'))
-        if kind == 'line' and (want_unit or '') != shown_unit and not (want_unit is None and shown_unit == ''):
+            chk.tag('figure/' + ('line-equal' if kind == 'line' else 'g-line-equal' if kind == 'gline' else 'cell-equal'))
+        if kind in ('line', 'gline') and (want_unit or '') != shown_unit and not (want_unit is None and shown_unit == ''):
             chk.fail(f'C09/unit/{label}', f'"{label}" is labelled "{shown_unit}" but the quantity\'s unit is "{want_unit}"', {**rep, 'line': ln})
-        elif kind == 'line':
+        elif kind in ('line', 'gline'):
             chk.tag('unit/equal')
     return unspecified
+
+
+def session_cases():
+    # three S-DAC-GT runs and one output-units directive run; the first two share a worker process (chunks of 2), as a client session would
+    out = []
+    for L in (6, 4, 9):
+        s = geo.base_params(2, 31, 4, L=L, n=1)
+        s.update({'Do S-DAC-GT Calculations': 'True'})
+        out.append((f'sdacgt/L{L}', s))
+    d = geo.base_params(2, 1, 1, L=7, n=2)
+    d['Units:Pumping Power'] = 'kW'
+    out.append(('directive/pumping-power-kW', d))
+    return out
 
 
 def cases_for(chk: core.Check, n_grid, n_div, n_examples):
@@ -468,7 +534,7 @@ def cases_for(chk: core.Check, n_grid, n_div, n_examples):
 def run(chk: core.Check) -> int:
     clean = chk.prove(['GeoVerif.Properties.C09'])
     quick = chk.tier == 'quick'
-    un = evaluate(chk, cases_for(chk, 36 if quick else 96, 16 if quick else 400, 8 if quick else 40))
+    un = evaluate(chk, session_cases() + cases_for(chk, 36 if quick else 96, 16 if quick else 400, 8 if quick else 40))
     chk.coverage['specified_labels'] = len(SPEC)
     chk.coverage['unspecified_labels_seen'] = dict(sorted(un.items(), key=lambda t: -t[1])[:80])
     chk.assumptions += ['"the corresponding computed quantity" is fixed by the specification table in harness/props/c09.py (label -> quantity, aggregate, scale, decimals, unit source), written from the '
